@@ -112,7 +112,7 @@ PROPS = {
         assumptions=["EndTxnResp is not in the property's list (its parser expects a flattened update list; noted in DESIGN.md)", "the control list through the message envelope is C02's c02_envelope and C03's c03_from_the_wire_with_controls"],
     ),
     "C01": dict(
-        groups=[("conn", 600, 40000), ("mt", 30, 1000)],
+        groups=[("conn", 600, 40000), ("mt", 30, 1000), ("hostile", 600, 40000)],
         exact_lanes=["msgid"],
         rule="scripts of 3-16 steps over the real driver (current-thread runtime, paused clock, in-memory transport): start single/direct-search/adapted-search/abandon/unbind operations on cloned handles with and without timeouts (0, 1, 1000, 5000 ms), one start in five held between id allocation and the send to the driver while other operations overtake it, server responses for live, finished and unknown ids (entries, references, intermediates, done, other ops) delivered in two writes, clock advances around the deadlines, next()/finish() calls, EOF / garbage / read error / write error / partial message / handle drop; observation after EVERY step (per-op status and delivered tokens, request log, id table, routing gauges, driver result). non-trivial = distinct script in which at least one operation completed. oracle: every delivered token was sent under the operation's own id, in order",
         trivial=[],
